@@ -93,6 +93,69 @@ fn drop_box_monitored<T: ?Sized>(rep: &mut Report, b: &Bump, bx: BBox<'_, T>, wh
     rep.bump("c17.monitored_drops");
 }
 
+fn boxed_slice_in_chunks(rng: &mut Rng, rep: &mut Report) {
+    let mut arena = match rng.below(3) {
+        0 => Bump::new(),
+        1 => Bump::with_capacity(rng.range(1, 400) as usize),
+        _ => {
+            let a = Bump::new();
+            a.alloc_slice_fill_copy(rng.range(1, 300) as usize, 1u8);
+            a
+        }
+    };
+    let n = rng.range(1, 40) as usize;
+    let cap = n + [0usize, 1, n, 3 * n, 64][rng.below(5)];
+    let older_neighbour = rng.chance(1, 2);
+    let (raw, want): (*mut [u64], Vec<u64>) = {
+        let a = &arena;
+        let mut v: BVec<u64> = BVec::with_capacity_in(cap, a);
+        if older_neighbour {
+            a.alloc(0xAAu8);
+        }
+        for i in 0..n {
+            v.push(i as u64 * 3 + 1);
+        }
+        if rng.chance(1, 3) {
+            v.truncate(n / 2 + 1);
+        }
+        let want: Vec<u64> = v.iter().copied().collect();
+        let bx: BBox<[u64]> = match rng.below(3) {
+            0 => v.into_boxed_slice(),
+            1 => v.into(),
+            _ => BBox::from_iter_in(v.into_iter(), a),
+        };
+        (BBox::into_raw(bx), want)
+    };
+    let (p, bytes) = (raw as *mut u64 as usize, want.len() * 8);
+    for round in 0..2 {
+        let mut inside = 0;
+        let mut chunks = 0;
+        for (cp, cl) in unsafe { arena.iter_allocated_chunks_raw() } {
+            chunks += 1;
+            let (lo, hi) = (cp as usize, cp as usize + cl);
+            if lo <= p && p + bytes <= hi {
+                inside += 1;
+            }
+        }
+        rep.bump("c10.live_boxed_slices_located");
+        if inside != 1 {
+            rep.violate("C10", "C10/iter/live-boxed-slice-not-inside-exactly-one-chunk-slice", format!("block [{:#x}, +{}) found in {} of {} chunk slices (round {})", p, bytes, inside, chunks, round));
+            rep.violate("C01", "C01/collections/live-boxed-slice-outside-the-allocated-part-of-the-arena", format!("block [{:#x}, +{}) found in {} of {} chunk slices (round {})", p, bytes, inside, chunks, round));
+        }
+        if unsafe { &*raw } != &want[..] {
+            rep.violate("C02", "C02/into_boxed_slice/contents-of-the-live-box-changed-by-a-later-operation", format!("round {}", round));
+        }
+        // later allocations in the same arena
+        let k = rng.range(1, 200) as usize;
+        let s = arena.alloc_slice_fill_copy(k, 0xEEu8);
+        let (sp, sl) = (s.as_ptr() as usize, s.len());
+        if sp < p + bytes && p < sp + sl {
+            rep.violate("C01", "C01/collections/later-allocation-overlaps-live-boxed-slice", format!("[{:#x}, +{}) vs [{:#x}, +{})", sp, sl, p, bytes));
+        }
+    }
+    drop(unsafe { BBox::from_raw(raw) });
+}
+
 pub fn run(args: &Args, rep: &mut Report) {
     let mut top = Rng::new(Rng::mix(args.seed ^ 0xC17, args.shard));
     for it in 0..args.iters {
@@ -109,7 +172,7 @@ pub fn run(args: &Args, rep: &mut Report) {
         // canaries
         let canary = b.alloc_slice_fill_copy(32, 0x77u8) as *const [u8];
         for opi in 0..args.ops {
-            let sc = rng.below(20);
+            let sc = rng.below(22);
             rep.ctx = format!("boxdiff program {} op {} scenario {} (seed {} shard {})", it, opi, sc, args.seed, args.shard);
             sig = fnv(sig, sc as u64);
             rep.bump(&format!("box.sc{}", sc));
@@ -737,6 +800,63 @@ pub fn run(args: &Args, rep: &mut Report) {
                     }
                     rep.bump("c15.box_drop_checks");
                 }
+                20 => {
+                    // boxed slices of zero-sized droppable elements, made the ways that never allocate
+                    // (the buffer pointer is dangling, the length is not zero)
+                    use bumpalo::collections::CollectIn;
+                    let n = rng.below(9);
+                    let how = rng.below(6);
+                    let (m0, d0) = ledger::zst_counts();
+                    let bx: BBox<[TrackedZst]> = match how {
+                        0 => {
+                            let mut v: BVec<TrackedZst> = BVec::new_in(b);
+                            for _ in 0..n {
+                                v.push(TrackedZst::new());
+                            }
+                            v.into_boxed_slice()
+                        }
+                        1 => {
+                            let mut v: BVec<TrackedZst> = BVec::with_capacity_in(n + 2, b);
+                            for _ in 0..n {
+                                v.push(TrackedZst::new());
+                            }
+                            v.into()
+                        }
+                        2 => BBox::from_iter_in((0..n).map(|_| TrackedZst::new()), b),
+                        3 => (0..n).map(|_| TrackedZst::new()).collect_in::<BBox<[TrackedZst]>>(b),
+                        4 => {
+                            let v: BVec<TrackedZst> = BVec::from_iter_in((0..n).map(|_| TrackedZst::new()), b);
+                            let bx: BBox<[TrackedZst]> = v.into_boxed_slice();
+                            let raw = BBox::into_raw(bx);
+                            unsafe { BBox::from_raw(raw) }
+                        }
+                        _ => {
+                            let v: BVec<TrackedZst> = bumpalo::vec![in b; TrackedZst::new(), TrackedZst::new(), TrackedZst::new()];
+                            v.into()
+                        }
+                    };
+                    let want = if how == 5 { 3 } else { n as u64 };
+                    let (m1, d1) = ledger::zst_counts();
+                    if bx.len() as u64 != want || m1 - m0 != want {
+                        v17(rep, "zst-boxed-slice/length-differs", format!("how {} len {} wanted {} minted {}", how, bx.len(), want, m1 - m0));
+                    }
+                    if d1 != d0 {
+                        vdrop(rep, "zst-boxed-slice/destructor-ran-during-conversion", format!("how {} {} drops", how, d1 - d0));
+                    }
+                    drop(bx);
+                    let (_, d2) = ledger::zst_counts();
+                    if d2 - d0 != want {
+                        v17(rep, "zst-boxed-slice/elements-not-dropped-exactly-once", format!("how {}: {} elements, {} destructor calls", how, want, d2 - d0));
+                        vdrop(rep, "zst-boxed-slice/elements-not-dropped-exactly-once", format!("how {}: {} elements, {} destructor calls", how, want, d2 - d0));
+                    }
+                    rep.bump("c17.zst_boxed_slice_cases");
+                    rep.bump("c15.box_drop_checks");
+                }
+                21 => {
+                    // a boxed slice is a live block of its arena: released to a raw pointer it must lie inside
+                    // exactly one of the arena's chunk slices, also after later allocations (C10, C01)
+                    boxed_slice_in_chunks(&mut rng, rep);
+                }
                 _ => {
                     // a box dropped while younger allocations exist: nothing of theirs changes
                     let t = BBox::new_in(Tracked::new(3), b);
@@ -770,7 +890,7 @@ pub fn run(args: &Args, rep: &mut Report) {
         if it == 0 {
             let mut j = J::obj();
             j.set("program_seed", J::i(pseed));
-            j.set("scenarios", J::s("16 kinds: sized eq/ord/hash/fmt, tracked drop, into_inner, into_raw/from_raw/leak, ZST, boxed slices, array<->slice conversions (hit and miss), Vec->Box<[T]> followed by later allocations, dyn Any / dyn Any+Send downcast hit and miss, boxed iterators, futures and pin_in, str/default, Hasher, slice comparisons, aligned values, drop with younger neighbours"));
+            j.set("scenarios", J::s("22 kinds: sized eq/ord/hash/fmt, tracked drop, into_inner, into_raw/from_raw/leak, ZST, boxed slices, array<->slice conversions (hit and miss), Vec->Box<[T]> followed by later allocations, dyn Any / dyn Any+Send downcast hit and miss, boxed iterators, futures and pin_in, str/default, Hasher, slice comparisons, aligned values, drop with younger neighbours, boxed slices of zero-sized droppable elements (six constructions), boxed slices located in the chunk iteration"));
             rep.sample(j);
         }
         if rep.violations.len() >= rep.max_violations {
